@@ -191,7 +191,7 @@ type c07Case struct {
 func c07Alphabet(contacts []string) []mOp {
 	var out []mOp
 	for _, c := range contacts {
-		out = append(out, mOp{"enqueue", c, 1}, mOp{"enqueue", c, 2}, mOp{"sent", c, 0}, mOp{"received", c, 1}, mOp{"received", c, 2}, mOp{"discard", c, 0}, mOp{"accept", c, 0}, mOp{"block", c, 0}, mOp{"unblock", c, 0})
+		out = append(out, mOp{"enqueue", c, 1}, mOp{"enqueue", c, 2}, mOp{"enqueue", c, 3}, mOp{"sent", c, 0}, mOp{"received", c, 1}, mOp{"received", c, 2}, mOp{"discard", c, 0}, mOp{"accept", c, 0}, mOp{"block", c, 0}, mOp{"unblock", c, 0})
 	}
 	return out
 }
